@@ -95,6 +95,7 @@ func cmdCheck(args []string) int {
 		fmt.Fprintln(os.Stderr, "unknown property", *prop)
 		return 2
 	}
+	replayRepo = *repo
 	p, err := loadProg(*repo)
 	if err != nil {
 		fmt.Fprintln(os.Stderr, "cannot load", *repo, ":", err)
@@ -423,6 +424,9 @@ func contractHasTag(cs *Contracts, con *FnContract, tag string) bool {
 	return false
 }
 
+// replayRepo is the tree the current check runs on (set by cmdCheck).
+var replayRepo = "/repo"
+
 func reportViolation(prop string, os_ []*Obligation, r *FnResult, established bool) string {
 	o := os_[0]
 	for _, c := range os_ {
@@ -470,6 +474,27 @@ func reportViolation(prop string, os_ []*Obligation, r *FnResult, established bo
 			}
 		}
 		rec["model_inputs"] = inputs
+	}
+	// replay the counterexample on the compiled code where the obligation is a run-time panic
+	// and the function can be called with concrete arguments (replay.go)
+	for _, c := range os_ {
+		if c.Result.Verdict != "sat" {
+			continue
+		}
+		rr, panicked := tryReplay(replayRepo, r, c)
+		for k, v := range rr {
+			rec[k] = v
+		}
+		if panicked {
+			rec["replayed_obligation"] = c.ID
+			suffix = " replayed=panic"
+			o = c
+			rec["obligation"] = c.ID
+			break
+		}
+		if _, tried := rr["replay_test"]; tried {
+			break // one attempt per function is enough
+		}
 	}
 	b, _ := json.MarshalIndent(rec, "", " ")
 	os.WriteFile(path, b, 0o644)
